@@ -156,6 +156,7 @@ func c01(c *Ctx) {
 	c04R4(c)
 	c05R1(c)
 	c01R10(c)
+	c01R11(c)
 }
 
 // R10: at start-up the pool decides what is idle only after the stored owners were restored.
@@ -1367,4 +1368,56 @@ func asExpr(n ast.Node) ast.Expr {
 		return e
 	}
 	return nil
+}
+
+// R11: both address sets of an interface share its fate. Wherever the pool of
+// one family is reset (a fresh Set assigned to Local.ipv4 / Local.ipv6 — the
+// interface was deleted, or is being set up), the other family's is reset in the
+// same block, once each: no address of a deleted interface stays allocatable.
+func c01R11(c *Ctx) {
+	p := c.P
+	c.Rule("C01.R11", "family agreement on reset: a block that assigns a fresh Set to Local.ipv4 assigns one to Local.ipv6 as well (and the other way round), each exactly once — the addresses of a deleted interface leave the pool for both families")
+	f4, f6 := p.Field(eniPkg, "Local", "ipv4"), p.Field(eniPkg, "Local", "ipv6")
+	if f4 == nil || f6 == nil {
+		c.Unres("C01.R11", "Local.ipv4 / Local.ipv6", "fields not found")
+		return
+	}
+	type key struct {
+		fn  *FuncInfo
+		blk *ast.BlockStmt
+	}
+	count := map[key]map[*types.Var]int{}
+	at := map[key]ast.Node{}
+	for _, s := range p.StoresTo(p.FuncsInPkg(eniPkg), f4, f6) {
+		if s.InLit || s.RHS == nil {
+			continue
+		}
+		if _, isMake := isBuiltinCall(s.Fn.Info(), s.RHS, "make"); !isMake {
+			if cl, isLit := ast.Unparen(s.RHS).(*ast.CompositeLit); !isLit || len(cl.Elts) > 0 {
+				continue
+			}
+		}
+		var blk *ast.BlockStmt
+		for _, n := range pathTo(s.Fn.Decl.Body, s.Node) {
+			if b, ok := n.(*ast.BlockStmt); ok {
+				blk = b
+			}
+		}
+		k := key{s.Fn, blk}
+		if count[k] == nil {
+			count[k] = map[*types.Var]int{}
+			at[k] = s.Node
+		}
+		count[k][s.Field]++
+	}
+	var keys []key
+	for k := range count {
+		keys = append(keys, k)
+	}
+	sort.Slice(keys, func(i, j int) bool { return at[keys[i]].Pos() < at[keys[j]].Pos() })
+	for _, k := range keys {
+		m := count[k]
+		c.Check(m[f4] == 1 && m[f6] == 1, "C01.R11", k.fn.Name+": both address sets are reset together", p.Pos(at[k]), k.fn.Key(), "one reset of ipv4 and one of ipv6 in the block", fmt.Sprintf("ipv4 reset %d×, ipv6 reset %d×", m[f4], m[f6]))
+	}
+	c.Floor("C01.R11", "blocks that reset an address set", 1, len(keys))
 }
